@@ -1894,9 +1894,14 @@ func (s *ScopedKeyManager) RenameAccount(ns walletdb.ReadWriteBucket,
 	// Update in-memory account info with new name if cached and the db
 	// write was successful.
 	if err == nil {
-		if acctInfo, ok := s.acctInfo[account]; ok {
-			acctInfo.acctName = name
-		}
+		ns.Tx().OnCommit(func() {
+			s.mtx.Lock()
+			defer s.mtx.Unlock()
+
+			if acctInfo, ok := s.acctInfo[account]; ok {
+				acctInfo.acctName = name
+			}
+		})
 	}
 
 	return err
